@@ -32,7 +32,7 @@ func genC01(r *prng) *plan {
 		case 0, 1, 2:
 			p.Ops = append(p.Ops, opSpec{K: "talk", N: []int64{int64(r.intn(len(c01Protos))), int64(r.intn(12)), int64(r.u64() >> 1)}})
 		case 3, 4, 5:
-			p.Ops = append(p.Ops, opSpec{K: "vcall", N: []int64{int64(r.intn(3)), int64(r.intn(9)), int64(r.intn(10)), int64(r.u64() >> 1)}})
+			p.Ops = append(p.Ops, opSpec{K: "vcall", N: []int64{int64(r.intn(3)), int64([]int{0, 1, 2, 3, 3, 3, 4, 5, 6, 7, 8}[r.intn(11)]), int64(r.intn(10)), int64(r.u64() >> 1)}})
 		case 6, 7, 8:
 			p.Ops = append(p.Ops, opSpec{K: "offer", N: []int64{int64(r.intn(3)), int64(r.intn(6)), int64(r.intn(8)), int64(r.u64() >> 1)}})
 		default:
@@ -215,7 +215,7 @@ func runC01(seed uint64) {
 			w.abstract("utpraw k%d", op.n(0))
 			w.probe("utpraw")
 		case "vcall":
-			c01VictimCall(w, V, ATT, respFor, vecs, opi, op, rs)
+			c01VictimCall(w, V, ATT, respFor, vecs, vv, opi, op, rs)
 		case "offer":
 			c01AttackerOffer(w, V, ATT, vecs, vv, opi, op, rs)
 		}
@@ -332,7 +332,7 @@ func c01TalkPayload(rs *prng, vecs []vector, netName string, kind int) []byte {
 }
 
 // c01VictimCall makes the node issue a request to the attacker, who answers with arbitrary bytes.
-func c01VictimCall(w *world, V *fullNodeT, ATT *puppet, respFor map[string]func([]byte, *enode.Node, *net.UDPAddr) []byte, vecs []vector, opi int, op opSpec, rs *prng) {
+func c01VictimCall(w *world, V *fullNodeT, ATT *puppet, respFor map[string]func([]byte, *enode.Node, *net.UDPAddr) []byte, vecs []vector, vv []uint8, opi int, op opSpec, rs *prng) {
 	netName := c01Nets[op.n(0)%3]
 	ni := V.nets[netName]
 	call := int(op.n(1))
@@ -381,12 +381,30 @@ func c01VictimCall(w *world, V *fullNodeT, ATT *puppet, respFor map[string]func(
 				valid = []byte{portalwire.CONTENT, byte(rr.intn(256))}
 			}
 		case portalwire.OFFER:
+			// mostly the framing of the negotiated version, with a verdict list that is exact, longer
+			// (surplus positions accepted), shorter, or at/over the 64-key limit
 			ks, _ := decOfferKeys(msg)
-			all := make([]bool, len(ks)+rr.intn(2))
-			for i := range all {
-				all[i] = rr.chance(60)
+			n := len(ks)
+			switch rr.intn(6) {
+			case 0, 1:
+				n += 1 + rr.intn(3)
+			case 2:
+				n = rr.intn(n + 1)
+			case 3:
+				n = 63 + rr.intn(4)
 			}
-			valid = encAccept(uint8(rr.intn(2)), uint16(rr.intn(65536)), all)
+			all := make([]bool, n)
+			for i := range all {
+				all[i] = rr.chance(60) || (i >= len(ks) && rr.chance(70))
+			}
+			ver := uint8(rr.intn(2))
+			if hv, ok := highestCommon(vv, vv, true); ok && rr.chance(75) {
+				ver = hv
+			}
+			valid = encAccept(ver, uint16(rr.intn(65536)), all)
+			if rr.chance(50) {
+				return valid
+			}
 		default:
 			valid = rr.bytes(rr.intn(30))
 		}
@@ -406,7 +424,11 @@ func c01VictimCall(w *world, V *fullNodeT, ATT *puppet, respFor map[string]func(
 		case 2:
 			_, err = ni.api.FindContent(ATT.enr(), hexutil.Encode(key))
 		case 3:
-			_, err = ni.api.Offer(ATT.enr(), [][2]string{{hexutil.Encode(key), hexutil.Encode(rs.bytes(rs.intn(3000)))}})
+			items := [][2]string{{hexutil.Encode(key), hexutil.Encode(rs.bytes(rs.intn(3000)))}}
+			for i := rs.intn(4); i > 0; i-- {
+				items = append(items, [2]string{hexutil.Encode(append([]byte{key[0]}, rs.bytes(32)...)), hexutil.Encode(rs.bytes(rs.intn(500)))})
+			}
+			_, err = ni.api.Offer(ATT.enr(), items)
 		case 4:
 			_, err = ni.api.RecursiveFindContent(hexutil.Encode(key))
 		case 5:
